@@ -25,7 +25,7 @@ import (
 func init() {
 	register(&Check{
 		ID: "C02", Level: "exploration", Primary: "past_basic_validation", EvalCount: "inputs",
-		Rule: "inputs = (a) the complete single-point shape/type mutation set of every canonical request (7 operations x 12 control variants; every node replaced by ~85 BER node kinds, " +
+		Rule: "inputs = (a) the complete single-point shape/type mutation set of every canonical request (7 operations x 12 control variants, plus 18 well-known control OIDs x 4 value shapes mutated within the controls subtree; every node replaced by ~85 BER node kinds, " +
 			"deleted, duplicated, swapped, child lists truncated/extended/reversed, class/tag/constructed-bit flipped, 14 length-octet corruptions), double-point mutations (sampled in quick; complete within " +
 			"the controls subtree and the protocolOp subtree in thorough), (b) seeded random byte streams, byte-level mutations and splices of canonical encodings, two frames on one connection and hostile frames behind a valid Bind on the same connection (plus Go native coverage-guided fuzzing in thorough). " +
 			"Each input is delivered through the in-memory decode hook, over TCP to a server with panic recovery enabled (oracle: 'Caught panic' log record) and over TCP to a server with recovery disabled " +
@@ -215,6 +215,9 @@ func c02Singles() []c02Input {
 	for _, cn := range canonicals() {
 		out = append(out, c02Input{cn.Name + "|canonical", cn.Tree.Encode()})
 		for _, m := range mutationsFor(cn.Tree, len(reps)) {
+			if cn.Scope != nil && !hasPrefix(m.Path, cn.Scope) {
+				continue
+			}
 			if b, ok := mutate(cn.Tree, reps, m); ok {
 				out = append(out, c02Input{cn.Name + "|" + m.String(), b})
 			}
@@ -244,6 +247,15 @@ func c02Doubles(c *Ctx, complete bool, sampled int, f func(name string, in []byt
 	r := c.Rng.Sub("doubles")
 	for _, cn := range cans {
 		ms := mutationsFor(cn.Tree, len(reps))
+		if cn.Scope != nil {
+			var in []Mut
+			for _, m := range ms {
+				if hasPrefix(m.Path, cn.Scope) {
+					in = append(in, m)
+				}
+			}
+			ms = in
+		}
 		if complete {
 			for _, sub := range [][]int{{1}, {2}} {
 				var in []Mut
